@@ -1,5 +1,6 @@
 import AmaranthVerif.Proofs.RtlilCells2
 import AmaranthVerif.Proofs.RtlilEmit
+import AmaranthVerif.Proofs.EmitTop
 
 /-!
 # C04 — emitted RTLIL is behaviourally equivalent to the simulated design
@@ -23,6 +24,17 @@ emitter would hide:
   operands preserves the result of `+ − * == !=`;
 * `sigspec_chunks` (shared with C07); `dff_init`: the power-on value of a flip-flop bit is the
   corresponding bit of the `init` attribute of the wire connected to `Q`.
+
+**For right-hand-side expressions the emitter itself is proved** (`emit_expr_correct_partial`,
+`emit_expr_sound_partial`): `Model/Rtlil/EmitExpr.lean` follows `NetlistEmitter.emit_rhs` (`hdl/_ir.py`) and
+`ModuleEmitter.emit_operator / shorten_operand / emit_part / emit_assignment_list / sigspec` (`back/rtlil.py`) and is
+compared with the real `rtlil.convert` output, cell by cell up to generated names, by the `emit` stream of
+`harness/checks/c04.py`; for every well-formed expression — every constructor of `Expr`: constants, signals, all
+unary and binary operators, slices, part-selects, concatenations, `SwitchValue` in its `Mux` form and in its general
+`Match`/`AssignmentList` form — running the emitted cells and processes in emission order in the very evaluator the
+check runs on parsed RTLIL (`Model/Rtlil/Eval.lean`) leaves on the returned sigspec exactly the value the simulator
+model computes (`evalRtl`, equal to the exact integer `denote` by C01), as the bit pattern of the expression's shape.
+The one side condition, `Expr.partsInside`, excludes what finding F27 is about (`emit_expr_signed_part_witness`).
 -/
 
 namespace Amaranth.C04
@@ -196,7 +208,7 @@ example : (emitSpec [.const true, .wire "\\a" 3, .wire "\\a" 4]).bitRefs = [.con
 slice `[hi:lo]` of the `init` attribute of wire `n`, and bit `i` of that attribute (counted from the
 least significant end) is its `i`-th character from the right — so a flip-flop of a chunk starting at
 bit `lo` must carry the initial value shifted by `lo`. -/
-theorem dff_init (c : Ctx) (wires : Std.HashMap String (Option (List Bit))) (n : String) (hi lo : Nat) (bs : List Bit)
+theorem dff_init (c : Rtlil.Ctx) (wires : Std.HashMap String (Option (List Bit))) (n : String) (hi lo : Nat) (bs : List Bit)
     (h : wires.getD n none = some bs) :
     initBits c wires (.slice n hi lo) = (bitsVal c.xres bs / 2 ^ lo) % 2 ^ (hi + 1 - lo) ∧
     ∀ i (hi' : i < bs.length), (bitsVal c.xres bs / 2 ^ i) % 2 = bitNat c.xres (bs.reverse[i]'(by simpa using hi')) := by
@@ -205,5 +217,145 @@ theorem dff_init (c : Ctx) (wires : Std.HashMap String (Option (List Bit))) (n :
 
 /-- test: `init = 5'11101` (29): a `Q` connected to bits `[4:2]` starts at `111` -/
 example : (bitsVal false [.b1, .b1, .b1, .b0, .b1] / 2 ^ 2) % 2 ^ (4 + 1 - 2) = 7 := by decide
+
+
+/-! ## The emitter on expressions -/
+
+/-!
+The full statement:
+
+    theorem emit_expr_correct (ctx : Amaranth.Ctx) (e : Expr) (hwf : e.wf ctx = true) (hch : e.chainsOk = true)
+        (env : Amaranth.Env) (hok : EnvOk ctx env) (xres : Bool) :
+        ∃ renv', evalNodes (emitCtx (emitExpr ctx e (EmitState.init ctx)).2.wires xres) {}
+            (emitExpr ctx e (EmitState.init ctx)).2.nodes (sigEnv ctx env) = .ok renv' ∧
+          (specVal (emitCtx (emitExpr ctx e (EmitState.init ctx)).2.wires xres) renv'
+              (emitExpr ctx e (EmitState.init ctx)).1 : Int) = denote ctx env e % 2 ^ widthOf ctx e
+
+is **false**: a part-select (`bit_select`/`word_select` with a signal offset) of a *signed* value is emitted as
+`$shift`, which shifts zeros in above `max(A_WIDTH, Y_WIDTH)` where the simulator (and `denote`) read the sign — finding
+F27, refuted by `emit_expr_signed_part_witness` below.  What is proved is the statement under the decidable side
+condition `e.partsInside ctx` (every part-select of a signed value stays inside the extended operand for every offset).
+`e.chainsOk` is not a restriction of the code: it says that the cases `Expr` chains into one `SwitchValue` share their
+test expression, which is what a `SwitchValue` is.
+-/
+
+/-- **The emitter is correct on expressions, general form**: from any emitter state, in any evaluator context that
+gives the declared wires their widths (and reads `$shift` as the cell library defines it), from any environment in which
+the signals' wires hold the signals' values: the cells and processes emitted for `e`, run in emission order, succeed,
+leave the signals' wires alone, and the returned sigspec then reads `denote ctx env e` modulo `2^width` (which is also
+what the simulator model `evalRtl` computes, masked). -/
+theorem emit_expr_sound_partial (c : Rtlil.Ctx) (hsa : c.shiftArith = false) (mems : Mems) (ctx : Amaranth.Ctx) (e : Expr)
+    (hwf : e.wf ctx = true) (hch : e.chainsOk = true) (hpi : e.partsInside ctx = true)
+    (env : Amaranth.Env) (hok : EnvOk ctx env) (st : EmitState) (renv : Rtlil.Env) (hse : SigEnv ctx env renv)
+    (hw : WidthsOk c (emitExpr ctx e st).2.wires) :
+    ∃ new renv', (emitExpr ctx e st).2.nodes = st.nodes ++ new ∧ evalNodes c mems new renv = .ok renv' ∧
+      SigEnv ctx env renv' ∧
+      (specVal c renv' (emitExpr ctx e st).1 : Int) = denote ctx env e % 2 ^ widthOf ctx e ∧
+      (specVal c renv' (emitExpr ctx e st).1 : Int) = mask (widthOf ctx e) (evalRtl ctx env e) := by
+  have hw' : WidthsOk c (st.wires ++ (emitE ctx e st.next).wires) := hw
+  obtain ⟨renv', hrun, hfr, hv⟩ := ((emitE_sound c mems ctx env hok hsa e hwf hch hpi).1 st.next renv hse hw'.right).run
+  have hsp : (specVal c renv' (emitExpr ctx e st).1 : Int) = mask (widthOf ctx e) (evalRtl ctx env e) := by
+    show ((specVal c renv' (emitSpec (emitE ctx e st.next).val) : Nat) : Int) = _
+    rw [specVal_emitSpec]; exact hv
+  refine ⟨(emitE ctx e st.next).nodes, renv', rfl, hrun, hse.frame hfr, ?_, hsp⟩
+  rw [hsp]
+  exact (sound ctx env hok e hwf).cong
+
+/-- **The emitter is correct on expressions**: the module body emitted for `out.eq(e)` from the initial state (the
+signals' wires declared, nothing emitted), evaluated in the context the evaluator builds from the declared wires,
+starting with the signals' values on their wires: every emitted cell and process evaluates, and the sigspec connected to
+`out` reads `denote ctx env e` modulo `2^width` — for either resolution `xres` of undefined values (the division guard
+makes the result independent of it). -/
+theorem emit_expr_correct_partial (ctx : Amaranth.Ctx) (e : Expr) (hwf : e.wf ctx = true) (hch : e.chainsOk = true)
+    (hpi : e.partsInside ctx = true) (env : Amaranth.Env) (hok : EnvOk ctx env) (xres : Bool) :
+    ∃ renv', evalNodes (emitCtx (emitExpr ctx e (EmitState.init ctx)).2.wires xres) {}
+        (emitExpr ctx e (EmitState.init ctx)).2.nodes (sigEnv ctx env) = .ok renv' ∧
+      (specVal (emitCtx (emitExpr ctx e (EmitState.init ctx)).2.wires xres) renv'
+          (emitExpr ctx e (EmitState.init ctx)).1 : Int) = denote ctx env e % 2 ^ widthOf ctx e ∧
+      (specVal (emitCtx (emitExpr ctx e (EmitState.init ctx)).2.wires xres) renv'
+          (emitExpr ctx e (EmitState.init ctx)).1 : Int) = mask (widthOf ctx e) (evalRtl ctx env e) := by
+  obtain ⟨new, renv', hn, hrun, _, h1, h2⟩ := emit_expr_sound_partial _ (emitCtx_shiftArith _ xres) {} ctx e hwf hch hpi env hok
+    (EmitState.init ctx) (sigEnv ctx env) (sigEnv_ok ctx env) (widthsOk_emitCtx ctx e xres)
+  have : (emitExpr ctx e (EmitState.init ctx)).2.nodes = new := by rw [hn]; rfl
+  rw [this]
+  exact ⟨renv', hrun, h1, h2⟩
+
+/-- non-vacuity: `Mux(i2 == 0 …)`-like choice, guarded division, multiplication-scaled part-select and an addition over
+`i0 : unsigned(4)`, `i1 : signed(3)`, `i2 : unsigned(2)` — `(sw i2 ("00" → i0) (default → i0 // i1)) + i0.word_select(i2, 3)` —
+satisfies every hypothesis; the emitted cells (`$divfloor $reduce_bool $mux $reduce_bool $mux $mul $shift $add`) leave
+`denote` on the result -/
+example :
+    let ctx : Amaranth.Ctx := [⟨4, false⟩, ⟨3, true⟩, ⟨2, false⟩]
+    let e : Expr := .op2 .add
+      (.ite (.sig 2) [[.zero, .zero]] (.sig 0) (.ite (.sig 2) [[.any, .any]] (.op2 .fdiv (.sig 0) (.sig 1)) Expr.nil))
+      (.part (.sig 0) (.sig 2) 3 3)
+    let env : Amaranth.Env := [5, -2, 1]
+    (e.wf ctx = true ∧ e.chainsOk = true ∧ e.partsInside ctx = true ∧ denote ctx env e % 2 ^ widthOf ctx e = 61) ∧
+    ∃ renv', evalNodes (emitCtx (emitExpr ctx e (EmitState.init ctx)).2.wires false) {}
+        (emitExpr ctx e (EmitState.init ctx)).2.nodes (sigEnv ctx env) = .ok renv' ∧
+      (specVal (emitCtx (emitExpr ctx e (EmitState.init ctx)).2.wires false) renv'
+          (emitExpr ctx e (EmitState.init ctx)).1 : Int) = 61 := by
+  intro ctx e env
+  have hwf : e.wf ctx = true := by decide
+  have hch : e.chainsOk = true := by decide
+  have hpi : e.partsInside ctx = true := by decide
+  have hd : denote ctx env e % 2 ^ widthOf ctx e = 61 := by decide +kernel
+  have hok : EnvOk ctx env := by
+    intro i
+    match i with
+    | 0 => decide
+    | 1 => decide
+    | 2 => decide
+    | n + 3 => simp [ctx, env, Ctx.shape, Env.val, Shape.WF, Shape.contains, Shape.lo, Shape.hi, Shape.u]
+  obtain ⟨renv', hr, hv, _⟩ := emit_expr_correct_partial ctx e hwf hch hpi env hok false
+  exact ⟨⟨hwf, hch, hpi, hd⟩, renv', hr, hv.trans hd⟩
+
+/-- **refuting witness of the full statement (finding F27)**: `a : signed(4) = -1`, `off : unsigned(2) = 2`,
+`a.bit_select(off, 4)`: the expression is well formed, the emitted `$shift` cell evaluates, and the result sigspec reads
+`0011` where `denote` (and the simulator) give `1111`. -/
+theorem emit_expr_signed_part_witness :
+    let ctx : Amaranth.Ctx := [⟨4, true⟩, ⟨2, false⟩]
+    let e : Expr := .part (.sig 0) (.sig 1) 4 1
+    let env : Amaranth.Env := [-1, 2]
+    e.wf ctx = true ∧ e.chainsOk = true ∧ e.partsInside ctx = false ∧ EnvOk ctx env ∧
+    denote ctx env e % 2 ^ widthOf ctx e = 15 ∧
+    ∀ xres renv', evalNodes (emitCtx (emitExpr ctx e (EmitState.init ctx)).2.wires xres) {}
+        (emitExpr ctx e (EmitState.init ctx)).2.nodes (sigEnv ctx env) = .ok renv' →
+      specVal (emitCtx (emitExpr ctx e (EmitState.init ctx)).2.wires xres) renv' (emitExpr ctx e (EmitState.init ctx)).1 = 3 := by
+  intro ctx e env
+  have hok : EnvOk ctx env := by
+    intro i
+    match i with
+    | 0 => decide
+    | 1 => decide
+    | n + 2 => simp [ctx, env, Ctx.shape, Env.val, Shape.WF, Shape.contains, Shape.lo, Shape.hi, Shape.u]
+  refine ⟨by decide, by decide, by decide, hok, by decide +kernel, ?_⟩
+  intro xres renv' hrun
+  have hw := widthsOk_emitCtx ctx e xres
+  have hse := sigEnv_ok ctx env
+  have hE : (emitExpr ctx e (EmitState.init ctx)).2.nodes
+      = (emitPart (wireBits (sigName 0) 0 4) true (wireBits (sigName 1) 0 2) 4 1 1).nodes := rfl
+  have hV : (emitExpr ctx e (EmitState.init ctx)).1
+      = emitSpec (emitPart (wireBits (sigName 0) 0 4) true (wireBits (sigName 1) 0 2) 4 1 1).val :=
+    congrArg emitSpec (rfl : (emitE ctx e 1).val = (emitPart (wireBits (sigName 0) 0 4) true (wireBits (sigName 1) 0 2) 4 1 1).val)
+  have hW : WidthsOk (emitCtx (emitExpr ctx e (EmitState.init ctx)).2.wires xres)
+      (emitPart (wireBits (sigName 0) 0 4) true (wireBits (sigName 1) 0 2) 4 1 1).wires :=
+    WidthsOk.right (a := (EmitState.init ctx).wires) hw
+  obtain ⟨env', hr, _, hv⟩ := (emitPart_sound _ {} (wireBits (sigName 0) 0 4) true (wireBits (sigName 1) 0 2) 4 1 1
+    (sigEnv ctx env) (emitCtx_shiftArith _ xres) (by norm_num) (old_wireBits (oldName_sig 0 1) _ _) hW).run
+  rw [hE] at hrun
+  rw [hr] at hrun
+  cases hrun
+  rw [hV, specVal_emitSpec, hv, valOf_wireBits, valOf_wireBits, Nat.pow_zero, Nat.div_one, Nat.div_one]
+  have h0 := hse 0 (by decide)
+  have h1 := hse 1 (by decide)
+  have e0 : (sigEnv ctx env).getD (sigName 0) 0 % 2 ^ 4 = 15 := by
+    have : (((sigEnv ctx env).getD (sigName 0) 0 % 2 ^ 4 : Nat) : Int) = 15 := h0
+    exact_mod_cast this
+  have e1 : (sigEnv ctx env).getD (sigName 1) 0 % 2 ^ 2 = 2 := by
+    have : (((sigEnv ctx env).getD (sigName 1) 0 % 2 ^ 2 : Nat) : Int) = 2 := h1
+    exact_mod_cast this
+  rw [e0, e1]
+  decide
 
 end Amaranth.C04
